@@ -140,14 +140,7 @@ def generate(repo, out_path):
     missing = [ij for ij in ((i, j) for i in range(3) for j in range(3)) if ij not in entries]
     if missing:
         raise TranslateError(f"{SRC}: _inertial_tensor does not assign entries {missing}")
-    # the threshold of the phase loop must be 10 ** (-GEOMETRY_NOISE)
-    om = fns.get("_orient_molecule_internal")
-    if om is None:
-        raise TranslateError(f"{SRC}: Molecule._orient_molecule_internal not found")
-    gn = [n for n in ast.walk(om) if isinstance(n, ast.Assign) and len(n.targets) == 1 and isinstance(n.targets[0], ast.Name)
-          and n.targets[0].id == "geom_noise"]
-    if len(gn) != 1 or ast.unparse(gn[0].value) not in ("10 ** (-GEOMETRY_NOISE)", "10 ** -GEOMETRY_NOISE"):
-        raise TranslateError(f"{SRC}: the phase threshold is not geom_noise = 10 ** (-GEOMETRY_NOISE)")
+    # (the phase threshold itself is translated by generate_body)
     text = ("(** GENERATED by harness/translate/inertia.py from qcelemental/models/molecule.py — do not edit. *)\n"
             "From Coq Require Import List ZArith.\nRequire Import QV.Common.Geo3 QV.Common.Geo3Sum.\nImport ListNotations.\n\n"
             f"Definition geometry_noise_exp : Z := {noise}%Z.\n\n"
@@ -157,5 +150,137 @@ def generate(repo, out_path):
     text += ("\nDefinition inertia_tensor (atoms : list (vec3 K * K)) : mat3 K :=\n"
              "  ((it_0_0 atoms, it_0_1 atoms, it_0_2 atoms),\n   (it_1_0 atoms, it_1_1 atoms, it_1_2 atoms),\n"
              "   (it_2_0 atoms, it_2_1 atoms, it_2_2 atoms)).\nEnd Gen.\n")
+    coqrun.write_if_changed(out_path, text)
+    return text
+
+
+# ------------------------------------------------------------------------------------------------------------------
+# the body of Molecule._orient_molecule_internal  ->  coq/Gen/OrientBody.v
+
+def _sexpr(node, env):
+    """scalar expression of the phase loop -> Coq term of type K.  env: python name -> Coq term"""
+    c = _const(node)
+    if c is not None:
+        return _cz(c)
+    if isinstance(node, ast.Name) and node.id in env:
+        return env[node.id]
+    if isinstance(node, ast.UnaryOp) and isinstance(node.op, ast.USub):
+        return f"(fopp K {_sexpr(node.operand, env)})"
+    if isinstance(node, ast.Call) and isinstance(node.func, ast.Name) and node.func.id == "abs" and len(node.args) == 1 and not node.keywords:
+        return f"(py_abs K {_sexpr(node.args[0], env)})"
+    if isinstance(node, ast.BinOp):
+        if isinstance(node.op, ast.Pow):
+            # base ** (-NAME) with an integer base and the module constant: 1 / base^N
+            b = _const(node.left)
+            r = node.right
+            if (b is not None and b > 1 and isinstance(r, ast.UnaryOp) and isinstance(r.op, ast.USub)
+                    and isinstance(r.operand, ast.Name) and r.operand.id == "GEOMETRY_NOISE"):
+                return f"(finv K (fofZ K ({b} ^ geometry_noise_exp)%Z))"
+            raise TranslateError(f"{SRC}: unsupported power in _orient_molecule_internal: {ast.unparse(node)}")
+        op = {ast.Add: "fadd", ast.Sub: "fsub", ast.Mult: "fmul", ast.Div: "fdiv"}.get(type(node.op))
+        if op:
+            return f"({op} K {_sexpr(node.left, env)} {_sexpr(node.right, env)})"
+    raise TranslateError(f"{SRC}: unsupported scalar expression in _orient_molecule_internal: {ast.unparse(node)}")
+
+
+def _bexpr(node, env):
+    """a single comparison -> Coq bool"""
+    if isinstance(node, ast.Compare) and len(node.ops) == 1 and len(node.comparators) == 1:
+        a, b = _sexpr(node.left, env), _sexpr(node.comparators[0], env)
+        op = node.ops[0]
+        if isinstance(op, ast.Lt):
+            return f"(fltb K {a} {b})"
+        if isinstance(op, ast.LtE):
+            return f"(fleb K {a} {b})"
+        if isinstance(op, ast.Gt):
+            return f"(fltb K {b} {a})"
+        if isinstance(op, ast.GtE):
+            return f"(fleb K {b} {a})"
+    raise TranslateError(f"{SRC}: unsupported test in _orient_molecule_internal: {ast.unparse(node)}")
+
+
+def _expect(node, text, what):
+    got = ast.unparse(node)
+    if got != text:
+        raise TranslateError(f"{SRC}:{getattr(node, 'lineno', '?')} _orient_molecule_internal: expected {what} `{text}`, found `{got}`")
+
+
+def generate_body(repo, out_path):
+    path = os.path.join(repo, SRC)
+    try:
+        with open(path) as fh:
+            tree = ast.parse(fh.read())
+    except (OSError, SyntaxError) as e:
+        raise TranslateError(f"cannot read/parse {path}: {e}")
+    cls = [n for n in tree.body if isinstance(n, ast.ClassDef) and n.name == "Molecule"]
+    if len(cls) != 1:
+        raise TranslateError(f"{SRC}: class Molecule not found")
+    fns = {n.name: n for n in cls[0].body if isinstance(n, ast.FunctionDef)}
+    fn = fns.get("_orient_molecule_internal")
+    if fn is None:
+        raise TranslateError(f"{SRC}: Molecule._orient_molecule_internal not found")
+    if [a.arg for a in fn.args.args] != ["self"] or fn.args.kwonlyargs or fn.args.vararg or fn.args.kwarg:
+        raise TranslateError(f"{SRC}: unexpected signature of _orient_molecule_internal")
+    # nothing of the molecule but its geometry, its masses and the tensor helper may be consulted (in particular no frame flag)
+    used = sorted({n.attr for n in ast.walk(fn) if isinstance(n, ast.Attribute) and isinstance(n.value, ast.Name) and n.value.id == "self"})
+    if used != ["_inertial_tensor", "geometry", "masses"]:
+        raise TranslateError(f"{SRC}: _orient_molecule_internal consults self.{used}; only geometry, masses and _inertial_tensor are modelled")
+    body = list(fn.body)
+    if body and isinstance(body[0], ast.Expr) and isinstance(body[0].value, ast.Constant) and isinstance(body[0].value.value, str):
+        body = body[1:]
+    if len(body) != 10:
+        raise TranslateError(f"{SRC}: _orient_molecule_internal has {len(body)} statements, 10 expected")
+    _expect(body[0], "new_geometry = self.geometry.copy()", "the copy of the geometry")
+    _expect(body[1], "np_mass = np.array(self.masses)", "the masses")
+    _expect(body[2], "new_geometry -= np.average(new_geometry, axis=0, weights=np_mass)", "the mass-weighted centroid shift")
+    _expect(body[3], "tensor = self._inertial_tensor(new_geometry, weight=np_mass)", "the tensor call")
+    _expect(body[4], "_, evecs = np.linalg.eigh(tensor)", "the eigh call")
+    _expect(body[5], "new_geometry = np.dot(new_geometry, evecs)", "the rotation")
+    _expect(body[6], "phase_check = [False, False, False]", "the phase flags")
+    st = body[7]
+    if not (isinstance(st, ast.Assign) and len(st.targets) == 1 and isinstance(st.targets[0], ast.Name) and st.targets[0].id == "geom_noise"):
+        raise TranslateError(f"{SRC}: expected geom_noise = ..., found {ast.unparse(st)}")
+    noise = _sexpr(st.value, {})
+    loop = body[8]
+    _expect(body[9], "return new_geometry", "the return")
+    # the loop skeleton
+    if not (isinstance(loop, ast.For) and not loop.orelse and ast.unparse(loop.target) == "num"
+            and ast.unparse(loop.iter) == "range(new_geometry.shape[0])" and len(loop.body) == 2):
+        raise TranslateError(f"{SRC}: unexpected outer loop in _orient_molecule_internal")
+    inner, brk = loop.body
+    if not (isinstance(inner, ast.For) and not inner.orelse and ast.unparse(inner.target) == "x" and ast.unparse(inner.iter) == "range(3)"
+            and len(inner.body) == 5):
+        raise TranslateError(f"{SRC}: unexpected inner loop in _orient_molecule_internal")
+    _expect(brk, "if sum(phase_check) == 3:\n    break", "the early exit")
+    i0, i1, i2, i3, i4 = inner.body
+    _expect(i0, "if phase_check[x]:\n    continue", "the skip of finished axes")
+    _expect(i1, "val = new_geometry[num, x]", "the coordinate read")
+    if not (isinstance(i2, ast.If) and not i2.orelse and len(i2.body) == 1 and isinstance(i2.body[0], ast.Continue)):
+        raise TranslateError(f"{SRC}: expected `if <test>: continue`, found {ast.unparse(i2)}")
+    env = {"val": "val", "geom_noise": "geom_noise"}
+    small = _bexpr(i2.test, env)
+    _expect(i3, "phase_check[x] = True", "marking the axis as done")
+    if not (isinstance(i4, ast.If) and not i4.orelse and len(i4.body) == 1 and isinstance(i4.body[0], ast.AugAssign)
+            and isinstance(i4.body[0].op, ast.Mult) and ast.unparse(i4.body[0].target) == "new_geometry[:, x]"):
+        raise TranslateError(f"{SRC}: expected `if <test>: new_geometry[:, x] *= <c>`, found {ast.unparse(i4)}")
+    neg = _bexpr(i4.test, env)
+    mult = _sexpr(i4.body[0].value, env)
+    text = ("(** GENERATED by harness/translate/inertia.py (generate_body) from Molecule._orient_molecule_internal — do not edit.\n"
+            "    Statement order and loop skeleton are checked against the source; operands, tests, multiplier and threshold are\n"
+            "    translated from it.  self.geometry / self.masses are the two arguments; no other attribute is consulted. *)\n"
+            "From Coq Require Import List ZArith.\n"
+            "Require Import QV.Common.Outcome QV.Common.Geo3 QV.Common.Geo3Sum QV.Common.Geo3Loop QV.Gen.Inertia.\nImport ListNotations.\n\n"
+            "Section Gen.\nVariable K : Fops.\nVariable eigh : mat3 K -> vec3 K * mat3 K.     (* np.linalg.eigh: (w, v) *)\n\n"
+            "Definition orient_internal_gen (self_geometry : list (vec3 K)) (self_masses : list K) : outcome (list (vec3 K)) :=\n"
+            "  let new_geometry := self_geometry in\n"
+            "  let np_mass := self_masses in\n"
+            "  obind (np_average0 K new_geometry np_mass) (fun avg =>\n"
+            "  let new_geometry := np_isub_rows K new_geometry avg in\n"
+            "  let tensor := inertia_tensor K (combine new_geometry np_mass) in\n"
+            "  let evecs := snd (eigh tensor) in\n"
+            "  let new_geometry := np_dot_rows K new_geometry evecs in\n"
+            f"  let geom_noise := {noise} in\n"
+            f"  Ok (eager_phase_loop K (fun val => {small}) (fun val => {neg}) {mult} new_geometry)).\n"
+            "End Gen.\n")
     coqrun.write_if_changed(out_path, text)
     return text
